@@ -34,7 +34,7 @@ def ResRelW (f : LMap) (G : List Text) : Res Val → Res Val → Prop
   | .err c s, .err c' s' => c = c' ∧ StRelW f G s s'
   | _, _ => False
 
-theorem StRel.toW {f : LMap} {s s' : St} (h : StRel f s s') (G : List Text) : StRelW f G s s' :=
+theorem stRel_toW {f : LMap} {s s' : St} (h : StRel f s s') (G : List Text) : StRelW f G s s' :=
   ⟨h.cells, h.out, fun y _ => h.globals y⟩
 
 /-- **the agreement of a native promise computation `resN` with the prelude's `resX`**: both are images
@@ -108,7 +108,8 @@ theorem StRelW.set_off {f : LMap} {G : List Text} {s s' : St} (h : StRelW f G s 
   refine ⟨fun l d hl => ?_, h.out, h.globals⟩
   obtain ⟨c', h1, h2⟩ := h.cells l d hl
   refine ⟨c', ?_, h2⟩
-  simp only [Array.getElem?_setIfInBounds, if_neg (fun e => hoff l e.symm)]
+  have hne : ¬ l' = f l := fun e => hoff l e.symm
+  simp only [Array.getElem?_setIfInBounds, if_neg hne]
   exact h1
 
 /-- **native leg.** If the native run of `(force (delay e))` with fuel `m + 3`, slack-guarded (`sguardN 1`:
@@ -148,7 +149,7 @@ theorem native_leg (m : Nat) (e : Datum) (ρ : Env) (st : St) (hst : WFSt st) (h
     rw [hRI] at hfwd
     obtain ⟨sN, e2, rs⟩ := hfwd.err_inv
     simp only [nativeFD, e2]
-    exact ⟨⟨rfl, rs.toStRel.toW []⟩, fun _ _ h => by cases h⟩
+    exact ⟨⟨rfl, stRel_toW rs.toStRel []⟩, fun _ _ h => by cases h⟩
   | ok vI sI =>
     rw [hRI] at hfwd
     obtain ⟨vN, sN, e2, rv, rs⟩ := hfwd.ok_inv
@@ -159,7 +160,7 @@ theorem native_leg (m : Nat) (e : Datum) (ρ : Env) (st : St) (hst : WFSt st) (h
       · exact h
       · rw [Array.getElem?_eq_none h] at hcell; cases hcell
     simp only [nativeFD, e2, hcell, if_pos hlt]
-    refine ⟨⟨rv, (rs.toStRel.toW []).set_off _ _ hoff⟩, ?_⟩
+    refine ⟨⟨rv, (stRel_toW rs.toStRel []).set_off _ _ hoff⟩, ?_⟩
     intro vN' sN' h
     cases h
     simp [hlt]
